@@ -16,12 +16,13 @@
    The _partial theorems are the full refinement statement for a container ANYWHERE in a well-formed forest driven by calls
    with plain Python arguments.  What they leave to the correspondence (model vs pg.List / pg.Dict on generated histories,
    every step): arguments that are existing symbolic nodes (adopted or copied at write time -- Python would alias), opaque
-   objects as written values, rebind with several / multi-key paths. *)
+   objects as written values, rebind on lists / with multi-key paths (the write of rebind({i: v}) on a list is covered by
+   the extension theorems). *)
 From Coq Require Import ZArith NArith List Bool.
 From PG Require Import Common.Tactics Model.SymCoreDefs Model.SymCoreOps Model.SymCoreSpec Model.SymCoreC02
      Proofs.SymCoreWF Proofs.SymCoreIds Proofs.SymCoreC02Base Proofs.SymCoreC02Read Proofs.SymCoreC02Frame Proofs.SymCoreC02Prim
      Proofs.SymCoreC02List Proofs.SymCoreC02Items Proofs.SymCoreC02Dict Proofs.SymCoreC02Step Proofs.SymCoreC02Ext Proofs.PyListFacts
-     Proofs.SymCoreC02Slice Proofs.SymCoreC02WF Proofs.SymCoreC02Or Proofs.SymCoreC02Examples Proofs.SymCoreC02Summary Proofs.SymCoreC02Init.
+     Proofs.SymCoreC02Slice Proofs.SymCoreC02WF Proofs.SymCoreC02Or Proofs.SymCoreC02Rebind Proofs.SymCoreC02Examples Proofs.SymCoreC02Summary Proofs.SymCoreC02Init.
 From PG Require Model.PyList Model.PyDict.
 Import ListNotations.
 Local Open Scope Z_scope.
@@ -91,6 +92,16 @@ Theorem C02_refines_python_or_partial : forall q sc ps tid pa fl, no_quirks q ->
   end.
 Proof. exact exec_x_or_refines. Qed.
 Print Assumptions C02_refines_python_or_partial.
+
+(* rebind with one or several single-key paths on a dict is dict.update (the change notification that follows is the identity) *)
+Theorem C02_refines_python_rebind_dict_partial : forall q sc ps tid pa fl st its kvs st' out,
+  WFI st -> at_is st ps tid KDict pa fl its -> clean its -> anc_clean st ps -> treats_as_sealed sc fl = false ->
+  Forall (fun kv => plain_rv (snd kv)) kvs -> kvs <> [] ->
+  exec q sc st ps tid KDict (snd ps) fl its (Rebind (map (fun kv : key * rvalue => ([fst kv], snd kv)) kvs)) = (st', out) ->
+  out = Ok RNone /\ WFI st' /\
+  dwrote st ps tid pa fl st' (PyDict.dupdate key_eqb (eitems its) (map (fun kv => (fst kv, prv (snd kv))) kvs)).
+Proof. exact exec_rebind_dict_refines. Qed.
+Print Assumptions C02_refines_python_rebind_dict_partial.
 
 (* --- C02_history: every finite history on one container ---------------------------------------------------------------------- *)
 (* lists: base catalogue and slice operations interleaved in any order; [lhist2_ok] only says that every call has plain
